@@ -231,3 +231,93 @@ def _mat_getitem_cols(interp, self: Mat, args, kwargs):
             return src(z3.If(r < 0, r + rows, r), j)
         return Mat(idx.length, self.cols, fn, elem=self.elem)
     return _old_mat_getitem(interp, self, args, kwargs)
+
+
+# ---------------------------------------------------------------------------------------------
+# text files: open(path, "r") as a context manager; iteration yields the lines the contract registered for that path
+# (interp.ctx.text_files: {key: Vec of Str}); key = python text of the path or the sexpr of its z3 term
+# ---------------------------------------------------------------------------------------------
+
+class TextFile(Val):
+    def __init__(self, lines, key):
+        self.lines = lines
+        self.key = key
+        self.closed = False
+        self.iterated = 0
+
+
+def _path_key(p):
+    from .lib_py import str_z
+    if isinstance(p, Str):
+        return p.py if p.py is not None else str_z(p).sexpr()
+    raise Unsupported("open() of a non-string path")
+
+
+@lib("builtins.open")
+def _b_open(interp, args, kwargs):
+    mode = args[1] if len(args) > 1 else kwargs.get("mode", Str(py="r"))
+    if not (isinstance(mode, Str) and mode.py in ("r", "rt")):
+        raise Unsupported("open() for writing / binary")
+    files = interp.ctx.__dict__.setdefault("text_files", {})
+    key = _path_key(args[0])
+    if key not in files:
+        raise Unsupported("open() of a file the contract did not describe")
+    f = TextFile(files[key], key)
+    interp.ctx.__dict__.setdefault("opened_files", []).append(f)
+    return f
+
+
+@method("TextFile", "__enter__")
+def _tf_enter(interp, self, args, kwargs):
+    return self
+
+
+@method("TextFile", "__exit__")
+def _tf_exit(interp, self, args, kwargs):
+    self.closed = True
+    return NONE
+
+
+@method("TextFile", "__iter__")
+def _tf_iter(interp, self, args, kwargs):
+    if self.closed:
+        raise PyRaise("ValueError", "I/O operation on closed file.")
+    self.iterated += 1
+    if self.iterated > 1:
+        raise Unsupported("a text file iterated twice (position not modelled)")
+    return self.lines
+
+
+# ---------------------------------------------------------------------------------------------
+# pandas: read_csv is opaque (ASSUMED: parses what its arguments say); the model records the call so that a contract can state
+# which file is read with which options, and gives column selection / to_numpy as data flow
+# ---------------------------------------------------------------------------------------------
+
+class DataFrame(Val):
+    def __init__(self, source):
+        self.source = source        # ("read_csv", args, kwargs)
+
+
+class Series(Val):
+    def __init__(self, frame, column):
+        self.frame = frame
+        self.column = column
+
+
+@lib("pandas.read_csv")
+def _pd_read_csv(interp, args, kwargs):
+    df = DataFrame(("read_csv", list(args), dict(kwargs)))
+    interp.ctx.__dict__.setdefault("read_csv_calls", []).append(df)
+    return df
+
+
+@method("DataFrame", "__getitem__")
+def _df_getitem(interp, self, args, kwargs):
+    return Series(self, args[0])
+
+
+@method("Series", "to_numpy")
+def _series_to_numpy(interp, self, args, kwargs):
+    if args or kwargs:
+        raise Unsupported("to_numpy with arguments")
+    return Opaque("column-values", (self.frame, self.column))
